@@ -18,6 +18,28 @@ REPLAYS = os.path.join(EVID, "replays")
 FINDINGS = os.path.join(VERIF, "known_findings.json")
 
 
+import contextlib
+import io
+import logging
+
+
+@contextlib.contextmanager
+def quiet():
+    """silence the library's own prints / log lines while it is driven (verdict lines come from the check only)"""
+    lg = logging.getLogger("NIFTy8")
+    lg2 = logging.getLogger("NIFTy")
+    old = lg.level, lg2.level
+    lg.setLevel(logging.ERROR)
+    lg2.setLevel(logging.ERROR)
+    buf = io.StringIO()
+    try:
+        with contextlib.redirect_stdout(buf):
+            yield buf
+    finally:
+        lg.setLevel(old[0])
+        lg2.setLevel(old[1])
+
+
 def load_findings():
     if not os.path.exists(FINDINGS):
         return []
